@@ -3,6 +3,7 @@ import OsmVerif.Model.Pbf
 import OsmVerif.Model.PbfScan
 import OsmVerif.Model.PbfOffsets
 import OsmVerif.Model.PbfFraming
+import OsmVerif.Model.ScanState
 /-! Parser of the structured-file tokens and printer of scanned objects (the same text the harness prints). -/
 namespace OsmVerif.Oracle.Pbf
 open OsmVerif.Oracle OsmVerif.Model.Pbf OsmVerif.Model.PbfScan
@@ -333,6 +334,32 @@ def handleC06 (toks : List String) : String :=
       | none => "bad-op"
       | some objss => showCut (nh = 1 ∧ pos ≥ 1) objss.flatten false
     | _, _ => "bad-op"
+  | _ => "bad-op"
+
+/-! ### C07: call histories -/
+
+open OsmVerif.Model.ScanState in
+def runHistory (total : Nat) (calls : String) : String :=
+  let cs : List Call := calls.toList.filterMap fun c =>
+    if c = 'S' then some .scan else if c = 'E' then some .err else if c = 'C' then some .close else if c = 'X' then some .cancel else none
+  let outs := runCalls { remaining := total, failsAtEnd := false } cs
+  " ".intercalate (outs.map fun o => match o with
+    | .bool true => "1" | .bool false => "0" | .unit => "-"
+    | .report .nil_ => "nil" | .report .failure => "failure" | .report .closed => "closed" | .report .ctx => "ctx")
+
+def handleC07 (toks : List String) : String :=
+  match toks with
+  | "hist" :: "pbf" :: _procs :: calls :: file =>
+    match parseFile file with
+    | some f =>
+      match (f.blocks.map (·.block)).mapM decodeBlock with
+      | some objss => runHistory objss.flatten.length calls
+      | none => "bad-op"
+    | none => "bad-op"
+  | ["hist", "xml", n, calls] =>
+    match n.toNat? with
+    | some n => runHistory n calls
+    | none => "bad-op"
   | _ => "bad-op"
 
 end OsmVerif.Oracle.Pbf
